@@ -127,6 +127,8 @@ func c13Run(c *h.Ctx) {
 		}
 		return false
 	}
+	// half of the injected faults are "reply lost": the backend computed the step, the caller only sees the error
+	rig.ReplyLost = func(n int, kind string) bool { return (n+int(c.Seed%7)+c.Case)%2 == 0 }
 	s, err := h.NewSim(h.SimConfig{Setting: cfg.Setting(false), Interval: 0, Backend: rig}, sr.Int63())
 	if err != nil {
 		c.Inconclusive(err.Error())
@@ -209,6 +211,9 @@ func c13Run(c *h.Ctx) {
 		if bc.Inject {
 			injected = append(injected, bc)
 			c.Feature("fault:" + bc.Kind)
+			if bc.ReplyLost {
+				c.Feature("fault:reply-lost:" + bc.Kind)
+			}
 			c.FP(bc.Kind, bc.N)
 		}
 	}
@@ -324,7 +329,7 @@ func init() {
 			return map[string]int{"quick": 180, "thorough": 1800}[tier]
 		},
 		RequiredFeatures: func(string) []string {
-			return []string{"fault:ReadyForAll", "fault:PayBlinds", "fault:Next", "fault:CreateGame", "fault:Call", "fault:Fold", "fault:Check", "fault:Allin", "fault:Bet", "fault:Raise", "engine-step-failure-reported:Next", "engine-step-failure-reported:ReadyForAll", "engine-step-failure-reported:CreateGame", "plan:random", "plan:ordinal"}
+			return []string{"fault:ReadyForAll", "fault:PayBlinds", "fault:Next", "fault:CreateGame", "fault:Call", "fault:Fold", "fault:Check", "fault:Allin", "fault:Bet", "fault:Raise", "fault:reply-lost:Raise", "fault:reply-lost:Call", "fault:reply-lost:Next", "engine-step-failure-reported:Next", "engine-step-failure-reported:ReadyForAll", "engine-step-failure-reported:CreateGame", "plan:random", "plan:ordinal"}
 		},
 		CaseTimeout: 120e9,
 		InProc:      2,
